@@ -8,7 +8,7 @@ import "fmt"
 // correctly - never silently wrong.
 
 // LimitKinds lists the generated shapes.
-var LimitKinds = []string{"locals", "params", "free", "free-returned", "free-nested", "selectors", "array-literal", "long-if", "long-loop", "long-logical", "consts-closure", "globals-selstore", "map-literal", "consts-dup", "spread-args", "free-refs"}
+var LimitKinds = []string{"locals", "params", "free", "free-returned", "free-nested", "selectors", "array-literal", "long-if", "long-loop", "long-logical", "consts-closure", "globals-selstore", "map-literal", "consts-dup", "spread-args", "free-refs", "globals"}
 
 // LimitSizes are the boundary sizes per kind.
 func LimitSizes(kind string) []int {
@@ -20,6 +20,9 @@ func LimitSizes(kind string) []int {
 	case "spread-args":
 		// n written arguments, the last one spread
 		return []int{254, 255, 256, 257}
+	case "globals":
+		// n global variables in total (the documented maximum is GlobalsSize - 1 = 1023; sizes up to it must compile)
+		return []int{1000, 1022, 1023, 1024}
 	case "free-refs":
 		// n REFERENCES to three captured variables: no limit is exceeded, the program must compile and run
 		return []int{255, 256, 257, 300}
@@ -68,6 +71,13 @@ func Limits(kind string, n int) *Program {
 		}
 		body := []Stmt{&Return{X: &ArrayLit{Elems: []Expr{I(v(0)), I(v(1)), I(v(n - 2)), I(v(n - 1))}}}}
 		return &Program{Main: []Stmt{Def("f", &FuncLit{Params: ps, Body: body}), Def("out", C(I("f"), args...))}}
+	case "globals":
+		var main []Stmt
+		for i := 0; i < n-1; i++ {
+			main = append(main, Def(v(i), N(fmt.Sprint(i%7))))
+		}
+		main = append(main, Def("out", &ArrayLit{Elems: []Expr{I(v(0)), I(v(n - 3)), I(v(n - 2))}}))
+		return &Program{Main: main}
 	case "free-refs":
 		var sum Expr = N("0")
 		names := []string{"p", "q", "r"}
